@@ -56,6 +56,7 @@ const rt = "__simrt"
 type counters struct{ Go, Yield, Select, MapRange, Imports, Stalls, Warnings int }
 
 var stats counters
+var stallSites []string // T6: every stall site, in file and source order
 var warnings []string
 
 func warn(format string, a ...any) {
@@ -139,6 +140,10 @@ func main() {
 		}
 		b, _ := json.MarshalIndent(merged, "", " ")
 		check(os.WriteFile(*ovOut, b, 0o644))
+	}
+	if *mode == "L1" {
+		// the harness picks single stall sites from this list (targeted runs)
+		check(os.WriteFile(filepath.Join(outAbs, "stallsites.txt"), []byte(strings.Join(stallSites, "\n")+"\n"), 0o644))
 	}
 	sort.Strings(warnings)
 	for _, w := range warnings {
@@ -309,6 +314,7 @@ func addStalls(fset *token.FileSet, f *ast.File, file string) bool {
 				tag = "@go"
 			}
 			site := fmt.Sprintf("%s:%d:%d(%s)%s", file, p.Line, p.Column, fn, tag)
+			stallSites = append(stallSites, site)
 			call := &ast.CallExpr{Fun: &ast.SelectorExpr{X: ast.NewIdent("__dsync"), Sel: ast.NewIdent("Stall")},
 				Args: []ast.Expr{&ast.BasicLit{Kind: token.STRING, Value: strconv.Quote(site)}}}
 			out = append(out, &ast.ExprStmt{X: call}, st)
